@@ -2,11 +2,14 @@
 pub mod civil;
 pub mod cmap_ref;
 pub mod codecs;
+pub mod crypto;
+pub mod sechandler;
 pub mod refwriter;
 pub mod robj;
+pub mod saslprep_pairs;
 pub mod strictreader;
 pub mod tables;
 
 pub fn selftests() -> Vec<(&'static str, Result<(), String>)> {
-    vec![("codecs", codecs::selftest()), ("civil", civil::selftest())]
+    vec![("codecs", codecs::selftest()), ("civil", civil::selftest()), ("crypto", crypto::selftest()), ("sechandler", sechandler::selftest())]
 }
